@@ -6,6 +6,7 @@ package main
 import (
 	"encoding/json"
 	"fmt"
+	"go/types"
 	"os"
 
 	"golang.org/x/tools/go/types/objectpath"
@@ -96,7 +97,17 @@ Run "garble map" with the same garble flags used to build, since flags such as
 			if parent := obj.Parent(); parent != nil && parent != tf.pkg.Scope() {
 				continue
 			}
-			newName, ok := tf.obfuscatedObjectName(obj)
+			named := obj
+			if vr, ok := obj.(*types.Var); ok && vr.Embedded() {
+				// An embedded field is named after its type,
+				// which is how transformGoFile obfuscates it too.
+				tname := namedType(vr.Type())
+				if tname == nil {
+					continue // unnamed type, e.g. a basic type like int
+				}
+				named = tname
+			}
+			newName, ok := tf.obfuscatedObjectName(named)
 			if !ok {
 				continue // not obfuscated
 			}
